@@ -263,8 +263,8 @@ theorem All2.imp {α β : Type} {R S : α → β → Prop} (hRS : ∀ a b, R a b
   | nil => exact All2.nil
   | cons h1 _ ih => exact All2.cons (hRS _ _ h1) ih
 
-theorem vres_ok (cfg : Cfg) (r : VRes) : vres cfg r = .ok ↔ r = .ok := by
-  cases r <;> simp [vres] <;> split <;> simp
+theorem guard_ok (r : VRes) : guarded r = .ok ↔ r = .ok := by
+  cases r <;> simp [guarded]
 
 
 theorem SigAt.imp {C : Lib Key Sig} {vf vf' : Key → Sig → VRes} (hv : ∀ k s, vf k s = .ok → vf' k s = .ok)
@@ -716,16 +716,16 @@ theorem checkAll_no_panic [DecidableEq Key] (cfg : Cfg) (C : Lib Key Sig) (vf : 
     | reject => simp
     | panic => exact absurd h1 (checkSigSet_no_panic cfg C vf hvf hser rs)
 
-theorem checkSigs_no_panic [DecidableEq Key] (cfg : Cfg) (hs : cfg.shortSig = .sound) (C : Crypto Key Sig)
+theorem checkSigs_no_panic [DecidableEq Key] (cfg : Cfg) (C : Crypto Key Sig)
     (hser : ∀ k, (C.serKey k).length ≠ 0) (tx : Tx) : checkSigs cfg C tx ≠ .panic := by
-  have hvf : ∀ k s, verifier cfg C tx k s ≠ .panic := by
+  have hvf : ∀ k s, verifier C tx k s ≠ .panic := by
     intro k s
-    unfold verifier vres
-    cases C.verify k (txMsg C tx) s <;> simp [hs]
+    unfold verifier guarded
+    cases C.verify k (txMsg C tx) s <;> simp
   unfold checkSigs checkSigsWith
   split
   · simp
-  · cases h : checkAll cfg C.toLib (verifier cfg C tx) tx.sigs with
+  · cases h : checkAll cfg C.toLib (verifier C tx) tx.sigs with
     | ok as => simp only; split <;> simp
     | reject => simp
     | panic => exact absurd h (checkAll_no_panic cfg C.toLib _ hvf hser tx.sigs)
